@@ -123,6 +123,19 @@ func build(id string, pc propConf, tmp string, fuzz bool) (string, error) {
 		bin = filepath.Join(tmp, strings.ToLower(id)+".fuzz.test")
 		args = []string{"test", "-c", "-vet=off", "-fuzz=Fuzz", "-o", bin}
 	}
+	if alt := os.Getenv("VERIF_REPO"); alt != "" && alt != "/repo" {
+		// audit mode: build against a scratch copy of the repository (mutation audits, pinned-tree
+		// comparisons). Registered commands never set this; they build /repo's working tree.
+		mod, err := os.ReadFile(filepath.Join(verifDir, "go.mod"))
+		if err != nil {
+			return "", err
+		}
+		mf := filepath.Join(tmp, "go.mod")
+		_ = os.WriteFile(mf, []byte(strings.Replace(string(mod), "=> /repo", "=> "+alt, 1)), 0o644)
+		sum, _ := os.ReadFile(filepath.Join(verifDir, "go.sum"))
+		_ = os.WriteFile(filepath.Join(tmp, "go.sum"), sum, 0o644)
+		args = append(args, "-modfile="+mf)
+	}
 	args = append(args, "./props/"+strings.ToLower(id))
 	cmd := exec.Command("go", args...)
 	cmd.Dir = verifDir
